@@ -85,7 +85,7 @@ theorem GInv.step_admOrder {s s' : G} (h : GInv s) (st : GStep s s') : noAdmissi
   obtain ⟨h1, h2, h3, h4, h5, h6, h7, h8, h9, h10, h11⟩ := h
   unfold noAdmissionAfterStopSet at *
   cases st <;> simp only [noAdmAfter_append, h11, Bool.true_and, Bool.false_or] <;> simp [noAdmAfter]
-  case admit t hp hs hst =>
+  case acquire t hp hs hst =>
     cases hany : (s.log.any fun e => e == Ev.stopSet) with
     | false => simpa using hany
     | true => have := h9 hany; rw [hs] at this; cases this
